@@ -161,6 +161,19 @@ PostJoin(c, V, J) ==
             /\ got.k = JoinOf(ev).k
             /\ got.k = "word" => got = JoinOf(ev)
 
+(* When every class of the full closure is clean, every component equality is demanded, so the classes the  *)
+(* evidence implies are exactly the closure's, and every variable must resolve to the join of all the evidence *)
+(* about its closure class - also evidence that reaches it only through a component equality.                 *)
+AllClean(V, J) == \A k \in FullClosure(J, DeclaredClasses(V, J)) : Clean(EvidenceOf(J, k))
+PostJoinClosure(c, V, J) ==
+    AllClean(V, J) =>
+        \A K \in FullClosure(J, DeclaredClasses(V, J)) : \A v \in K :
+            LET ev == EvidenceOf(J, K)
+                got == Resolved(c, v) IN
+            /\ got.k # "conflict"
+            /\ got.k = JoinOf(ev).k
+            /\ got.k = "word" => got = JoinOf(ev)
+
 (* plainly contradictory evidence, already joined by declared equalities, must end as a conflict *)
 MustConflict(V, J) == {k \in DeclaredClasses(V, J) : \E a, b \in EvidenceOf(J, k) : Contradictory(a, b)}
 PostConflict(c, V, J) ==
